@@ -218,7 +218,9 @@ def drive(col: Collector, make_test, seed, max_examples, shrink=True, max_failur
 def _run_shard_entry(args):
     modname, spec = args
     try:
-        sys.stderr = open(os.devnull, "w") if not os.environ.get("PV_DEBUG") else sys.stderr
+        if not os.environ.get("PV_DEBUG"):
+            sys.stderr = open(os.devnull, "w")
+            sys.stdout = open(os.devnull, "w")  # generated / corpus modules may print at import
         mod = importlib.import_module(modname)
         res = mod.run_shard(spec)
         res["shard"] = spec.get("name", "?")
